@@ -63,7 +63,9 @@ func init() {
 		}
 		ps := NewPathSim(prog)
 		if os.Getenv("VERIF_DEBUG_INLINE") != "" {
-			ps.Inline = func(c *ssa.Function) bool { return prog.InModule(c) && strings.Contains(os.Getenv("VERIF_DEBUG_INLINE"), c.Name()) }
+			ps.Inline = func(c *ssa.Function) bool {
+				return prog.InModule(c) && strings.Contains(os.Getenv("VERIF_DEBUG_INLINE"), c.Name())
+			}
 		}
 		for i, sm := range ps.Run(fn) {
 			fmt.Printf("--- summary %d: %s\n    trail: %s\n", i, sm.Describe(), strings.Join(sm.St.trail, " "))
